@@ -96,7 +96,8 @@ def run(module: str, cfg: str, *, workers: int | str = 1, env: dict[str, str] | 
     if not os.path.isabs(cfg):
         cfg = os.path.join(spec_dir, cfg)
     meta = scratch("rvf-meta-")
-    cmd = ["java", f"-Xmx{heap}", "-XX:+UseParallelGC", "-cp", JAR, "tlc2.TLC",
+    # (-Xss: the recursive operators of the trace specs walk sequences of a thousand and more elements in C19)
+    cmd = ["java", f"-Xmx{heap}", "-Xss512m", "-XX:+UseParallelGC", "-cp", JAR, "tlc2.TLC",
            "-workers", str(workers), "-metadir", meta, "-noGenerateSpecTE", "-config", cfg]
     if coverage:
         cmd += ["-coverage", "1"]
